@@ -425,6 +425,14 @@ def stream_dfxp_doc_text(ctx, res):
                 a, b = b, a
             lines = [" ".join(rng.choice(DOC_ATOMS) for _ in range(rng.choice([1, 1, 2, 3]))) for _ in range(rng.choice([1, 1, 2, 3]))]
             caps.append([a, b, lines])
+        if rng.random() < 0.15:
+            # audit 7: OUTSIDE the clean-line domain (blanks at line edges, an empty line) or a language name with a quote:
+            # the writer model's text is then NOT the writer's (rstrip before <br/>, prettify's strip, bs4's quote choice);
+            # the theorem still speaks about the model document; the real round trip is judged all the same
+            k = rng.randrange(len(caps))
+            caps[k][2] = rng.choice([[" a ", "", "b"], ["x ", " y"], ["", "z"], ["w", ""]])
+            if rng.random() < 0.3:
+                lang = 'e"n'
         cases.append((lang, caps))
     texts = oracle_batch([(207, [lang, caps]) for (lang, caps) in cases])
     reals = []
@@ -453,11 +461,18 @@ def stream_dfxp_doc_text(ctx, res):
             res["violations"].append({"kind": "dfxp-document-round-trip", "writer": "dfxp", "replay": "dfxp-doc",
                                       "what": "DFXPWriter raised %r for %s" % (real, caps), "input": [lang, caps]})
             continue
+        clean = '"' not in lang and all(l and l == l.strip() for (_, _, ls) in caps for l in ls)
+        if not clean:
+            dist["dfxp_documents_outside_the_clean_line_domain"] = dist.get("dfxp_documents_outside_the_clean_line_domain", 0) + 1
         if real.v != text:
-            # another layout of the same document is not a failure of the property: recorded; the real text must still
-            # be read as the same captions by the real reader (violation) and by the string-level reader model
             ndiff += 1
-            res.setdefault("document_text_differences", []).append({"input": [lang, caps], "model": text[:300], "impl": real.v[:300]})
+            if clean:
+                # audit 7: inside the clean-line domain the model text must BE the writer's text (C08's DFXP text theorem
+                # rests on it): a difference is a correspondence disagreement
+                res["disagreements"].append({"what": "DFXP writer model document differs from the real writer's (clean lines)",
+                                             "input": [lang, caps], "model": text[:400], "impl": real.v[:400]})
+            else:
+                res.setdefault("document_text_differences", []).append({"input": [lang, caps], "model": text[:300], "impl": real.v[:300]})
         back = impl.call(lambda: [[l, [[c.start, c.end] for c in cs.get_captions(l)]]
                                   for cs in [DFXPReader().read(real.v)] for l in cs.get_languages()])
         if not (isinstance(back, Ok) and back.v == want):
@@ -469,7 +484,7 @@ def stream_dfxp_doc_text(ctx, res):
         if unwire(m) != want:
             res["disagreements"].append({"what": "string-level reader model on the writer model's document", "input": [lang, caps],
                                          "model": unwire(m), "expected": want})
-        if unwire(mr) != want and not (mr[0] == 1 and mr[1] == 199):
+        if unwire(mr) != want:            # audit 7: "outside the sublanguage" (199) is no excuse for the writer's own output
             res["disagreements"].append({"what": "string-level reader model on the real writer's document", "input": [lang, caps],
                                          "model": unwire(mr), "expected": want})
         for (a, b, _) in caps:
